@@ -216,4 +216,10 @@ def validateIncremental (acc : Acc) : CState â†’ List (Name Ã— Ann Ã— Tensor) â†
     | .ok st' => validateIncremental acc st' rest
     | r => r
 
+/-- `validate_assignment=True`: assigning to an annotated field re-runs that field's validator with the
+    instance's current data, which still holds the context of the construction (all field names registered).
+    KNOWN FINDING F13: a conforming assignment therefore ends in the duplicate-name error. -/
+def pydanticAssign (acc : Acc) (st : CState) (name : Name) (ann : Ann) (t : Tensor) : Outcome CState :=
+  pydanticField acc st name ann t
+
 end Dltype
